@@ -254,9 +254,94 @@ def fam_overrides(lo, hi):
         note='finite rule x operation table, enumerated'))
 
 
+def fam_policy_file():
+    """overrides that come from the operator's policy file and change while
+    the process runs: an override applies while it is in the file and stops
+    applying when it is removed from it (oslo.policy re-reads the file when
+    its modification time changes)"""
+    import os
+    import tempfile
+    import time
+    picks = [('placement:resource_providers:list',
+              ('/resource_providers', 'GET')),
+             ('placement:usages', ('/usages', 'GET')),
+             ('placement:reshaper:reshape', ('/reshaper', 'POST')),
+             ('placement:allocations:update',
+              ('/allocations/{consumer_uuid}', 'PUT'))]
+
+    def path(ctx):
+        app.setup()
+        name, (route, method) = picks[symex.choose(len(picks))]
+        mode = symex.choose(2)      # 0: '!' in the file, 1: '@' in the file
+        with c14.world(ctx) as w0:
+            base_admin = do(route, method, 'admin:proj',
+                            'admin,service,reader')
+        with c14.world(ctx) as w0:
+            base_nobody = do(route, method, 'nobody:other', '')
+        fd, fn = tempfile.mkstemp(suffix='.yaml', prefix='verif-policy-')
+        os.close(fd)
+        old = app.CONF.oslo_policy.policy_file
+
+        def write(text, age):
+            with open(fn, 'w') as f:
+                f.write(text)
+            t = time.time() + age
+            os.utime(fn, (t, t))
+        try:
+            write('"%s": "%s"\n' % (name, '!' if mode == 0 else '@'), 0)
+            app.set_conf('oslo_policy', policy_file=fn)
+            policy.reset()
+            policy.init(app.CONF, suppress_deprecation_warnings=True)
+            who = ('admin:proj', 'admin,service,reader') if mode == 0 else \
+                ('nobody:other', '')
+            with c14.world(ctx) as w:
+                r1 = do(route, method, *who)
+            if mode == 0 and base_admin.status < 400 and r1.status != 403:
+                runner.violation(ctx, 'override-denies-its-operation',
+                                 'policy file sets %s to ! but %s %s answered '
+                                 '%d' % (name, method, route, r1.status),
+                                 sig='file:' + name)
+            if mode == 1 and r1.status != base_admin.status:
+                runner.violation(ctx, 'override-grants-its-operation',
+                                 'policy file sets %s to @ but %s %s answered '
+                                 '%d (admin: %d)' % (name, method, route,
+                                                     r1.status,
+                                                     base_admin.status),
+                                 sig='file:' + name)
+            # the operator removes the override again
+            write('{}\n', 5)
+            with c14.world(ctx) as w:
+                r2 = do(route, method, *who)
+            want = base_admin.status if mode == 0 else base_nobody.status
+            if r2.status != want:
+                runner.violation(
+                    ctx, 'removed-override-stops-applying',
+                    'override of %s removed from the policy file but %s %s '
+                    'still answers %d (default behaviour: %d)' % (
+                        name, method, route, r2.status, want),
+                    sig='file-removed:' + name)
+        finally:
+            app.set_conf('oslo_policy', policy_file=old)
+            policy.reset()
+            policy.init(app.CONF, suppress_deprecation_warnings=True,
+                        rules=copy.deepcopy(policies.list_rules()))
+            try:
+                os.unlink(fn)
+            except OSError:
+                pass
+        ctx.data['obligations'] = ctx.data.get('obligations', 0) + 2
+        ctx.data['discharged'] = ctx.data.get('discharged', 0) + 2 - \
+            len(ctx.data.get('violations', []))
+        return finish(ctx, 'policy-file')
+    return Family('policy-file-reload', path, conformance=False, bounds=dict(
+        rules=[p_[0] for p_ in picks], modes=['!', '@'],
+        sequence='override present in the file, then removed from it, '
+        'within one process'))
+
+
 def families(tier):
     n = len(documented_rules())
-    fams = [fam_callers(), fam_callers('sym')]
+    fams = [fam_callers(), fam_callers('sym'), fam_policy_file()]
     if tier == 'quick':
         fams.append(fam_overrides(0, 6))
         fams.append(fam_overrides(n - 4, n))
